@@ -335,6 +335,8 @@ class OscArgsMatcher(AbstractMessageMatcher):
 
     def __call__(self, msg, time, addr, recv_port):
         args = msg[1:]
+        if len(self.arg_template) > len(args):
+            return  # The message is shorter than the template.
         for i, item in enumerate(self.arg_template):
             if callable(item):
                 if not item(args[i]):
